@@ -16,6 +16,8 @@ COMPONENTS = {
     "lz4c": dict(builds=["implrun"], timeout=1500),
     "pipe": dict(builds=["implrun"], timeout=1500),
     "piper": dict(builds=["implrun_race"], arg="pipe", timeout=1500),
+    "rpipe": dict(builds=["implrun"], timeout=1500),
+    "rpiper": dict(builds=["implrun_race"], arg="rpipe", timeout=1500),
     "ws": dict(builds=["implrun"], timeout=1500),
     "rs": dict(builds=["implrun"], timeout=1500),
     "cr": dict(builds=["implrun"], timeout=1500),
@@ -23,7 +25,7 @@ COMPONENTS = {
 }
 
 NOT_APPLICABLE = {}
-HOOK_COMMITS = ["5361f0f"]
+HOOK_COMMITS = ["5361f0f", "826255c", "1162414", "1396f63"]
 ENGINES = [
     {"name": "coq-proof+correspondence", "path": "/verif/check", "serves_properties": [],
      "kind_free_text": "Coq 8.16.1 development in /verif/coq (theorems in PropCxx.v), translator /verif/gen, extracted OCaml model runner /verif/ocaml, Go implementation runner /verif/harness, Python driver /verif/check"},
@@ -32,16 +34,16 @@ ENGINES = [
 PROPS = {
     "C01": dict(
         prop_files=["PropC01.v"], components=["cmp", "dec"],
-        level_text="Theorems C01_fast (for EVERY stale state of the fast compressor's table), C01_hc (every depth 0..131072, which covers the nine named levels) and C01_hc_any_object: with a destination of at least CompressBlockBound(len) bytes the compressor models succeed with a positive count and BOTH decoder models (assembly and portable), given a buffer of exactly the original length with arbitrary prior contents, return exactly the source. Proved for all byte strings of any length. The models are byte-exact transliterations validated on every run against the real compressors (all entry points, fresh/reused/pooled objects, inputs up to 200 KB) and decoders (both builds).",
-        level_note="Trusted: Coq kernel; translator (constants, blockHash, blockHashHC, CompressBlockBound re-translated and the proofs re-checked on every run); extraction; harness. Modelled, not verified: control flow of block.go / decode_other.go / decode_amd64.s (hand-written Gallina, tied by the correspondence). HC depths above 131072 (not a named level): termination of the chain walk is shown by counting tries only up to that depth; the model then reports CHang and the theorem does not cover it.",
+        level_text="Theorems C01_fast (for EVERY stale state of the fast compressor's table), C01_hc (EVERY search depth >= 0: termination of the chain walk is proved independently of the depth, CompressHCTermination.hc_nohang_all) and C01_hc_any_object: with a destination of at least CompressBlockBound(len) bytes the compressor models succeed with a positive count and BOTH decoder models (assembly and portable), given a buffer of exactly the original length with arbitrary prior contents, return exactly the source. Proved for all byte strings of any length. The models are byte-exact transliterations validated on every run against the real compressors (all entry points, fresh/reused/pooled objects, inputs up to 200 KB) and decoders (both builds).",
+        level_note="Trusted: Coq kernel; translator (constants, blockHash, blockHashHC, CompressBlockBound re-translated and the proofs re-checked on every run); extraction; harness. Modelled, not verified: control flow of block.go / decode_other.go / decode_amd64.s (hand-written Gallina, tied by the correspondence).",
         rule="cmp: sources of length 0..40 dense, all destination lengths 0..bound+3 for some sources, medium sources, 6 sources of 66-206 KB (16-bit table positions), fast and HC at 15 depths, four entry points with histories; non-trivial = source longer than 14 bytes (a match is possible). dec: see C04.",
         modelled="block.go compressors (CompressFast.v, CompressHC.v), both decoders (DecodeAsm.v, DecodePortable.v)",
-        strength="full for the models (all sources, all table states, depths <= 131072)",
+        strength="full for the models (all sources, all table states, all depths)",
         assumptions=["Go int modelled as unbounded Z (lengths below 2^63)", "amd64 assembly modelled under the address-space assumption of DecodeAsm.v"],
     ),
     "C03": dict(
         prop_files=["PropC03.v"], components=["dec"],
-        level_text="Theorems C03_asm / C03_portable: for every source, destination (any length, any prior contents) and dictionary the decoder models return an error or a count 0 <= n <= len(dst) and leave the destination's length unchanged; C03_total_*: they are total and agree with the block-format specification on every input. In the zipper models every read of src/dict and every write of dst is a list access that cannot leave the slice; the accesses the real code would make outside are the explicit error branches, and the wide copies (16/18/48/16 bytes) are performed literally under the guards the code tests. The correspondence compares return code and the WHOLE destination on thousands of grammar-built and mutated blocks per run in both builds, with src/dst/dict ending at PROT_NONE pages (over-reads fault) and with canaries around sub-sliced destinations.",
+        level_text="Theorems C03_asm / C03_portable: for every source, destination (any length, any prior contents) and dictionary the decoder models return an error or a count 0 <= n <= len(dst) and leave the destination's length unchanged; C03_total_*: they are total and agree with the block-format specification on every input. C03_asm_never_faults / C03_asm_monitor_erase: an instrumented copy of the assembly model in which every load and store carries its address range and is checked against the three buffers never reports an out-of-range access, on any input, and erasing the instrumentation gives back the decoder model. In the zipper models every read of src/dict and every write of dst is a list access that cannot leave the slice; the accesses the real code would make outside are the explicit error branches, and the wide copies (16/18/48/16 bytes) are performed literally under the guards the code tests. The correspondence compares return code and the WHOLE destination on thousands of grammar-built and mutated blocks per run in both builds, with src/dst/dict ending at PROT_NONE pages (over-reads fault) and with canaries around sub-sliced destinations.",
         level_note="Partial by nature for the assembly: what the model cannot exhibit is the MMU-level behaviour of the SSE/MOVQ loads and stores; it is observed by the guard-page runs, not proved. Address-space assumption (no pointer wrap) stated in DecodeAsm.v; the nil-destination wrap was finding F2 (repaired).",
         rule="dec: blocks built from the sequence grammar with the literal/match/offset class tables, destination-size classes (exact, one short, +k, tiny), truncations and bit flips, tail-shortcut classes (wide copies starting within 0..48 bytes of the ends), nil/empty destinations, random sources; both builds; non-trivial = at least one sequence",
         modelled="decode_amd64.s, decode_other.go as zipper models", strength="model theorems + validated access behaviour",
@@ -58,7 +60,7 @@ PROPS = {
         prop_files=["PropC10.v"], components=["cmp"],
         level_text="Theorems C10_fast / C10_hc: for ANY destination size, a positive result b of the compressor models parses back (parse_block) to a parse p with b = encode p, p well formed and STRICT (every offset in 1..65535 and inside the output produced so far, final literals-only sequence, at least five final literals, last match starting at least 12 bytes before the end), decoding to the source. On every run the extracted strict validator is also applied to the IMPLEMENTATION's blocks.",
         level_note="As C01.", rule="cmp (see C01); every implementation block is parsed back and checked by the extracted strict validator",
-        modelled="compressors", strength="full for the models (depth <= 131072)",
+        modelled="compressors", strength="full for the models (all depths)",
     ),
     "C11": dict(
         prop_files=["PropC11.v"], components=["cmp"],
@@ -112,7 +114,7 @@ PROPS = {
         level_note="The reference machine treats API misuse (Apply after writing, ReadFrom after Write) as a failure of the object, as the code does.", rule="ws: lifecycle, lifecycle-random; rs: lifecycle", modelled="state.go, writer.go, reader.go", strength="full (sequential objects)",
     ),
     "C08": dict(
-        prop_files=["PropC08.v"], components=["pipe", "piper", "ws"],
+        prop_files=["PropC08.v"], components=["pipe", "piper", "rpipe", "rpiper", "ws"],
         level_text="Theorems about the labelled transition system of the concurrent Writer pipeline (producer, one worker per block, ordering goroutine, bounded queue, per-block channels, buffer ownership), for EVERY interleaving, every concurrency level, every number of blocks and every set of failing sink writes: C08_order (blocks reach the sink in submission order, exactly the prefix before the first failure), C08_ownership (no buffer is read after release or while its worker runs), C08_no_deadlock (every reachable state is final or can step), C08_terminates (explicit decreasing measure), C08_no_leak (after Close returned: ordering goroutine exited, nothing queued, no worker blocked), C08_checker_sound (the trace checker accepts every run of the model). Tie to the code: hook call sites (verif tag) at every channel operation record traces and perturb scheduling; on every run 120 perturbed, buffer-poisoned sessions (Write/Flush/Close/Reset/reuse, sink faults, concurrency 2..16) are checked by the EXTRACTED checker, compared byte for byte with the sequential output, read back by a perturbed concurrent Reader (also on a corrupted frame), checked for leftover goroutines, and repeated under the race detector.",
         level_note="Partial by nature: the theorems are about the protocol model; the Go scheduler, memory model and sync.Pool are assumed; the trace check is inclusion of OBSERVED traces in the checker's language. The Reader pipeline has no LTS: it is covered by the harness oracles only.",
         rule="pipe/piper: seeded sessions (conc 2,3,4,8,16; 0..6 full blocks + tail; chunkings; Flush every 1..3 writes; reuse after Close; sink fault at a random call); non-trivial = at least two blocks",
@@ -131,8 +133,8 @@ PROPS = {
     ),
     "C15": dict(
         prop_files=["PropC15.v"], components=["ws", "rs"],
-        level_text="Theorem C15_sink_fault: for EVERY k, the underlying writer failing from its k-th call on, in every well-formed session: what reached the sink is a prefix of the fault-free output and some call returns the failure, Close at the latest. C15_source_fault: the underlying reader failing at its k-th call, for every k and every input: the delivered bytes are a prefix of the fault-free output and the result is the injected error, never a clean end, unless the stream had been read completely. Fragmentation: the model reads through io.ReadFull semantics only; the five fragmentation patterns are validated against the implementation. Validation: sink faults at every call index of sessions (sequential compared with the model; concurrent by oracles), source faults at every call index, five fragmentation patterns (single bytes, zero-length reads, data with io.EOF, 7-byte reads).",
-        level_note="The sink model fails permanently from call k; a transient failure followed by success is outside the theorem (after a failed Flush the pending block is re-emitted).", rule="ws, rs", modelled="as C02", strength="full for the models; fragmentation by validation",
+        level_text="Theorem C15_sink_fault: for EVERY k, the underlying writer failing from its k-th call on, in every well-formed session: what reached the sink is a prefix of the fault-free output and some call returns the failure, Close at the latest. C15_source_fault: the underlying reader failing at its k-th call, for every k and every input: the delivered bytes are a prefix of the fault-free output and the result is the injected error, never a clean end, unless the stream had been read completely. C15_fragmentation_irrelevant: the Reader takes every byte through io.ReadFull, and io.ReadFull over a source fragmenting its reads by ANY finite plan (single bytes, zero-length reads, data delivered together with io.EOF) returns the bytes, error class and remaining stream of the unfragmented read, so every Reader theorem holds for every fragmentation; that the code reads only through io.ReadFull is validated by five fragmentation patterns against the implementation. Validation: sink faults at every call index of sessions (sequential compared with the model; concurrent by oracles), source faults at every call index, five fragmentation patterns (single bytes, zero-length reads, data with io.EOF, 7-byte reads).",
+        level_note="The sink model fails permanently from call k; a transient failure followed by success is outside the theorem (after a failed Flush the pending block is re-emitted).", rule="ws, rs", modelled="as C02", strength="full for the models",
     ),
     "C18": dict(
         prop_files=["PropC18.v"], components=["cr"],
